@@ -142,6 +142,11 @@ theorem mu_env (s s' : St) (a : Act) (ha : a.isEnv = true) (hi : Inv s) (h : ste
     split at h
     · rename_i hg; simp at h hg; subst h; mu_close0
     · simp at h
+  case envDeadline sid =>
+    simp only [step] at h
+    split at h
+    · rename_i hg; simp at h hg; subst h; mu_close0
+    · simp at h
   case envFire f =>
     simp only [step] at h
     split at h
